@@ -409,6 +409,8 @@ def traffic_steps(rng, scenario_idx):
     for i in range(n_calls):
         if r.random() < 0.4:
             steps.append(('reply', {'idx': i}))
+        elif r.random() < 0.3:
+            steps.append(('cancel', {'idx': i}))      # the caller gives up on the call (Deferred.cancel)
     steps.append(('answer-introspection', {}))
     r.shuffle(steps)
     return steps
@@ -432,6 +434,7 @@ def established_case(ctx, scenario_idx, lose_at, partial, case):
         proxies = {}          # idx -> {'d': Outcome, 'obj': proxy or None, 'cb': Counter}
         pending_introspect = []
         reentrant = []
+        retried = []
         cancelled = []
         loss = Failure(ConnectionLost('verif established loss'))
         w = {'scenario': scenario_idx, 'steps': [[k, a] for k, a in steps], 'lose_at': lose_at, 'partial': partial}
@@ -441,7 +444,16 @@ def established_case(ctx, scenario_idx, lose_at, partial, case):
 
             def got(obj):
                 rec['obj'] = obj
-                if (scenario_idx + idx) % 4 == 2:
+                if (scenario_idx + idx) % 4 == 0:
+                    oneshot = Counter('oneshot-proxy%d' % idx)
+
+                    def fire_once(o_, reason_, _cnt=oneshot):
+                        _cnt(o_, reason_)
+                        o_.cancelNotifyOnDisconnect(fire_once)
+                    obj.notifyOnDisconnect(fire_once)
+                    obj.notifyOnDisconnect(rec['cb'])
+                    rec['oneshot'] = oneshot
+                elif (scenario_idx + idx) % 4 == 2:
                     c_ = Counter('cancelled-proxy%d' % idx)
                     obj.notifyOnDisconnect(c_)
                     obj.notifyOnDisconnect(rec['cb'])
@@ -459,7 +471,19 @@ def established_case(ctx, scenario_idx, lose_at, partial, case):
             if kind == 'call':
                 kw = {'timeout': a['timeout']} if a['timeout'] else {}
                 d = conn.callRemote('/obj', 'M%d' % a['idx'], interface='org.verif.I', destination='org.verif.P', **kw)
-                calls[a['idx']] = {'o': clientfix.Outcome(d), 'replied': False, 'serial': None, 'timeout': a['timeout']}
+                if scenario_idx % 5 == 2 and a['idx'] in (0, 2):
+                    # retry-on-failure: the failure handler of this call issues another call on the same connection
+                    # (when that happens while the lost connection is failing its calls, the new one is outstanding on
+                    # a dead connection and must be failed by the same loss as well)
+                    def retry(f_, t_=a['timeout']):
+                        kw_ = {'timeout': 2.5} if t_ else {}
+                        reentrant.append(clientfix.Outcome(conn.callRemote(
+                            '/obj', 'Retry', interface='org.verif.I', destination='org.verif.P', **kw_)))
+                        retried.append(a['idx'])
+                        return f_
+                    d.addErrback(retry)
+                calls[a['idx']] = {'o': clientfix.Outcome(d), 'replied': False, 'serial': None, 'timeout': a['timeout'],
+                                   'd': d}
                 for m in peer.take():
                     if m.fields.get('member') == 'M%d' % a['idx']:
                         calls[a['idx']]['serial'] = m.serial
@@ -468,6 +492,19 @@ def established_case(ctx, scenario_idx, lose_at, partial, case):
             elif kind == 'dc':
                 dcs[a['idx']] = Counter('dc%d' % a['idx'])
                 conn.notifyOnDisconnect(dcs[a['idx']])
+                if scenario_idx % 4 == 3:
+                    # a one-shot listener that unregisters itself while it runs: the callbacks registered after it are
+                    # still registered and must run
+                    oneshot = Counter('oneshot-dc%d' % a['idx'])
+
+                    def fire_once(c_, reason_, _cnt=oneshot):
+                        _cnt(c_, reason_)
+                        c_.cancelNotifyOnDisconnect(fire_once)
+                    conn.notifyOnDisconnect(fire_once)
+                    after = Counter('after-oneshot-dc%d' % a['idx'])
+                    conn.notifyOnDisconnect(after)
+                    dcs['o%d' % a['idx']] = oneshot
+                    dcs['p%d' % a['idx']] = after
                 if scenario_idx % 4 == 1:
                     # a callback registered and cancelled again must not run; the ones around it must
                     c_ = Counter('cancelled-dc%d' % a['idx'])
@@ -500,6 +537,11 @@ def established_case(ctx, scenario_idx, lose_at, partial, case):
                 for m in peer.take():
                     if m.fields.get('member') == 'Introspect':
                         pending_introspect.append(m)
+            elif kind == 'cancel':
+                c = calls.get(a['idx'])
+                if c and c['o'].fired == 0:
+                    c['d'].cancel()
+                    ctx.count('calls_cancelled_by_caller')
             elif kind == 'reply':
                 c = calls.get(a['idx'])
                 if c and c['serial'] and not c['replied']:
@@ -551,7 +593,12 @@ def established_case(ctx, scenario_idx, lose_at, partial, case):
         w['pending_proxies'] = pending_proxies
         if peer.ep.crashes:
             w['crash'] = repr(peer.ep.crashes[0])
-            ctx.report('connectionLost-raised', 'connectionLost raised %r' % peer.ep.crashes[0], w, case)
+            reentry = retried and isinstance(peer.ep.crashes[0], RuntimeError)
+            ctx.report('loss-flush-reentrancy' if reentry else 'connectionLost-raised', 'connectionLost raised %r%s' % (
+                peer.ep.crashes[0], ' (the failure handler of call %s issued another call while the outstanding calls were '
+                'being failed)' % retried if reentry else ''), w, case)
+            if reentry:
+                return len(steps)
         for i, c in calls.items():
             if c['o'].fired != 1:
                 ctx.report('call-fired-%d-times' % c['o'].fired, 'call %d (timeout %s) fired %d times around the loss' % (
@@ -566,8 +613,10 @@ def established_case(ctx, scenario_idx, lose_at, partial, case):
         for o in reentrant:
             if o.fired != 1 or o.results[0][0] != 'err' or not (o.results[0][1] is loss or o.results[0][1].value is loss.value):
                 w['reentrant'] = [[(k_, repr(v_.value if k_ == 'err' else v_)[:80]) for k_, v_ in x.results] for x in reentrant]
-                ctx.report('reentrant-call', 'a call issued by a connection-level disconnect callback was not finished off by '
-                           'the loss (fired %d times: %r)' % (o.fired, w['reentrant']), w, case)
+                w['retried_calls'] = retried
+                ctx.report('reentrant-call', 'a call issued %s was not finished off by the loss (fired %d times: %r)' % (
+                    'by the failure handler of another call while the lost connection was failing its calls' if retried
+                    else 'by a connection-level disconnect callback', o.fired, w['reentrant']), w, case)
                 break
         else:
             if reentrant:
@@ -579,7 +628,10 @@ def established_case(ctx, scenario_idx, lose_at, partial, case):
                 break
             ctx.count('cancelled_callbacks_silent')
         for i, cb in dcs.items():
-            if len(cb.calls) != 1 or not (cb.calls[0][0] is conn and cb.calls[0][1] is loss):
+            if str(i).startswith('p') and len(cb.calls) != 1:
+                ctx.report('callback-skipped-after-self-cancel', 'a connection-level disconnect callback registered after a '
+                           'listener that unregisters itself while running ran %d times' % len(cb.calls), w, case)
+            elif len(cb.calls) != 1 or not (cb.calls[0][0] is conn and cb.calls[0][1] is loss):
                 ctx.report('connection-callback-count', 'connection-level disconnect callback %d ran %d times' % (
                     i, len(cb.calls)), w, case)
             else:
@@ -587,7 +639,13 @@ def established_case(ctx, scenario_idx, lose_at, partial, case):
         for i in live_proxies:
             p = proxies[i]
             kinds = dict((a_['idx'], k_) for k_, a_ in steps if 'idx' in a_ and k_.startswith('proxy'))
-            if len(p['cb'].calls) != 1 or not (p['cb'].calls[0][0] is p['obj'] and p['cb'].calls[0][1] is loss):
+            if p.get('oneshot') is not None and len(p['oneshot'].calls) != 1:
+                ctx.report('proxy-callback-count', 'self-cancelling disconnect callback of live proxy %d ran %d times' % (
+                    i, len(p['oneshot'].calls)), w, case)
+            elif len(p['cb'].calls) != 1 and p.get('oneshot') is not None:
+                ctx.report('callback-skipped-after-self-cancel', 'a disconnect callback registered on proxy %d after a '
+                           'listener that unregisters itself while running ran %d times' % (i, len(p['cb'].calls)), w, case)
+            elif len(p['cb'].calls) != 1 or not (p['cb'].calls[0][0] is p['obj'] and p['cb'].calls[0][1] is loss):
                 w['proxy_kind'] = kinds.get(i)
                 ctx.report(classify_proxy(kinds.get(i), i, steps), 'disconnect callback of live proxy %d (%s) ran %d times' % (
                     i, kinds.get(i), len(p['cb'].calls)), w, case)
